@@ -43,6 +43,9 @@ var specs = []spec{
 	{"chan_server_messages_cap", "internal/server/handlers/serverhandler.go", "chancap", "serverMessages", "NewServerHandler", 0},
 	{"chan_mapr_messages_cap", "internal/server/handlers/serverhandler.go", "chancap", "maprMessages", "NewServerHandler", 0},
 	{"max_before_context", "internal/config/args.go", "const", "maxBeforeContext", "", 0},
+	{"stats_ring_matched", "internal/io/fs/stats.go", "arraylen", "matched", "stats", 0},
+	{"stats_ring_transmitted", "internal/io/fs/stats.go", "arraylen", "transmitted", "stats", 0},
+	{"chan_raw_lines_cap", "internal/io/fs/readfile.go", "chancap", "rawLines", "Start", 0},
 	{"query_keywords", "internal/mapr/token.go", "strlist", "keywords", "", 0},
 }
 
@@ -280,6 +283,38 @@ func extract(repo string, sp spec) (value, error) {
 		})
 		if res == nil {
 			return value{}, fmt.Errorf("string list %s not found in %s", sp.Key, sp.File)
+		}
+		return *res, nil
+	case "arraylen":
+		// length of the array-typed field Key of struct type Fn
+		var res *value
+		ast.Inspect(f, func(n ast.Node) bool {
+			ts, ok := n.(*ast.TypeSpec)
+			if !ok || ts.Name.Name != sp.Fn {
+				return true
+			}
+			st, ok := ts.Type.(*ast.StructType)
+			if !ok {
+				return true
+			}
+			for _, fld := range st.Fields.List {
+				for _, nm := range fld.Names {
+					if nm.Name != sp.Key {
+						continue
+					}
+					if at, ok := fld.Type.(*ast.ArrayType); ok && at.Len != nil {
+						if cv, ok := evalExpr(at.Len, consts); ok {
+							if v, err := toValue(cv, src); err == nil {
+								res = &v
+							}
+						}
+					}
+				}
+			}
+			return false
+		})
+		if res == nil {
+			return value{}, fmt.Errorf("array field %s.%s not found in %s", sp.Fn, sp.Key, sp.File)
 		}
 		return *res, nil
 	case "call":
